@@ -71,6 +71,7 @@ size_t heap_live_bytes(void);
 uint64_t heap_live_digest(void); /* order independent digest of live allocation ids */
 heap_viol_t heap_take_violation(void);
 uint32_t heap_next_id(void);
+void heap_log_rebase(void);
 int heap_is_live(const void *p);          /* p is the base of a live library allocation */
 size_t heap_block_size(const void *p);    /* size of live block with base p, 0 if unknown */
 int heap_block_id(const void *p);
